@@ -30,6 +30,11 @@ pub enum Edit {
     ZeroSignature,
     /// point an input at another unspent output of the same owner / amount / slip index
     RewriteInputCoordinates,
+    /// every transaction removed, header (merkle root included) kept: decodes as a header block
+    StripAllTxs,
+    /// a fee-less transaction replaced by a slip-less SPV placeholder carrying its hash (what a
+    /// lite block does) inside a block offered to a full node
+    SpvPlaceholder,
     // header fields inside the signed pre-hash (identity must change)
     SignedField(usize),
     // header fields outside the signed pre-hash (observation only)
@@ -94,6 +99,24 @@ pub fn apply(edit: Edit, orig: &Block, donor: Option<&Block>, rng: &mut Rng) -> 
         Edit::FlipSignature => b.signature[rng.below(64) as usize] ^= 1 << rng.below(8),
         Edit::ZeroSignature => b.signature = [0; 64],
         Edit::RewriteInputCoordinates => return None, // built by rewrite_input() with ledger access
+        Edit::StripAllTxs => {
+            if n == 0 {
+                return None;
+            }
+            b.transactions.clear();
+        }
+        Edit::SpvPlaceholder => {
+            use saito_core::core::consensus::transaction::{Transaction, TransactionType};
+            let mut g = orig.clone();
+            let _ = g.generate();
+            let i = g.transactions.iter().position(|t| t.transaction_type == TransactionType::Normal && t.total_fees == 0 && t.from.iter().all(|s| s.amount == 0) && t.to.iter().all(|s| s.amount == 0))?;
+            let h = g.transactions[i].hash_for_signature?;
+            let mut ph = Transaction::default();
+            ph.transaction_type = TransactionType::SPV;
+            ph.txs_replacements = 1;
+            ph.signature[0..32].copy_from_slice(&h);
+            b.transactions[i] = ph;
+        }
         Edit::SignedField(k) => match k % 12 {
             0 => b.id += 1,
             1 => b.timestamp += 1,
@@ -179,6 +202,8 @@ fn edits(rng: &mut Rng) -> Vec<Edit> {
         Edit::FlipSignature,
         Edit::ZeroSignature,
         Edit::RewriteInputCoordinates,
+        Edit::StripAllTxs,
+        Edit::SpvPlaceholder,
     ];
     for k in 0..12 {
         v.push(Edit::SignedField(k));
@@ -198,7 +223,7 @@ fn edit_name(e: Edit) -> String {
 }
 
 fn touches_tx_list(e: Edit) -> bool {
-    matches!(e, Edit::RewriteInputCoordinates | Edit::DropTx | Edit::DuplicateTx | Edit::SwapTxs | Edit::ReverseTxs | Edit::AddForeignTx | Edit::MutateTxAmount | Edit::MutateTxData | Edit::ZeroMerkleRootAndDropTx)
+    matches!(e, Edit::StripAllTxs | Edit::SpvPlaceholder | Edit::RewriteInputCoordinates | Edit::DropTx | Edit::DuplicateTx | Edit::SwapTxs | Edit::ReverseTxs | Edit::AddForeignTx | Edit::MutateTxAmount | Edit::MutateTxData | Edit::ZeroMerkleRootAndDropTx)
 }
 
 fn verification_thread(node: &LNode) -> (VerificationThread, tokio::sync::mpsc::Receiver<ConsensusEvent>) {
@@ -289,6 +314,9 @@ pub async fn run(ctx: &Ctx, rep: &mut Report) {
                     rep.count("twin_spend_included");
                 }
             }
+            // one fee-less data transaction (what an SPV placeholder can stand in for without
+            // disturbing the fee totals)
+            txs.push(build_tx(&h.b.actors[3].clone(), &[], &[], h.b.store.get(&parent).ts + 11, b"memo"));
             let with_gt = h.pick_gt(&mut rng, &parent);
             let spec = crate::chain::BlockSpec { gap: 2 * h.cfg.params.heartbeat, txs, with_gt, gt_miner: 1 };
             let step = match h.deliver_spec(&mut rng, &parent, &spec).await {
@@ -427,7 +455,7 @@ pub async fn run(ctx: &Ctx, rep: &mut Report) {
                 if let Ok((sib, pnode)) = h.b.produce(&mut rng, &parent, &spec).await {
                     h.b.keep_producer(parent, pnode);
                     let sib_bytes = block_bytes(&sib);
-                    for e in [Edit::SwapTxs, Edit::DropTx, Edit::MutateTxAmount, Edit::FlipSignature, Edit::ZeroSignature, Edit::DuplicateTx] {
+                    for e in [Edit::SwapTxs, Edit::DropTx, Edit::MutateTxAmount, Edit::FlipSignature, Edit::ZeroSignature, Edit::DuplicateTx, Edit::StripAllTxs, Edit::SpvPlaceholder] {
                         let edited = match apply(e, &orig, prev_block.as_ref(), &mut rng) {
                             Some(b) => b,
                             None => continue,
